@@ -6,6 +6,7 @@ import (
 	"os"
 	"os/exec"
 	"path/filepath"
+	"regexp"
 	"sort"
 	"strings"
 	"time"
@@ -450,7 +451,7 @@ func checkC07(c *Ctx) {
 				}
 				sort.Ints(sorted)
 				for _, k := range sorted {
-					cases = append(cases, c07Case{Name: fmt.Sprintf("c07-h%03d-s%d-%s%05d", h, s, which, k), Class: "remnant-of-" + which + ":" + remnantClass(full, k),
+					cases = append(cases, c07Case{Name: fmt.Sprintf("c07-h%03d-s%d-%s%05d", h, s, which, k), Class: remnantKey(which, remnantClass(full, k), cls),
 						Desc: fmt.Sprintf("history %d step %d: derived.gen.go holds the first %d of %d bytes of the %s output", h, s, k, len(full), which), Src: src, Prior: full[:k], HasPrev: true})
 				}
 			}
@@ -550,7 +551,7 @@ func checkC07(c *Ctx) {
 		case o.g.Crash != "":
 			viol("crash", trunc(o.g.Stderr, 1200))
 		case o.g.Exit != 0:
-			viol("run-fails:"+symptom(o.g.Stderr), "from scratch the same sources generate fine; with the prior derived.gen.go:\n"+trunc(o.g.Stderr, 800))
+			viol("run-fails:"+c07Symptom(o.g.Stderr), "from scratch the same sources generate fine; with the prior derived.gen.go:\n"+trunc(o.g.Stderr, 800))
 		case ref.exists != o.exists:
 			viol("file-presence-differs", fmt.Sprintf("from scratch: file exists=%v; after the run over the prior state: exists=%v", ref.exists, o.exists))
 		case ref.derived != o.derived:
@@ -566,4 +567,49 @@ func checkC07(c *Ctx) {
 			}
 		}
 	}
+}
+
+var (
+	reDeriveName = regexp.MustCompile(`derive[A-Za-z0-9_]+`)
+	reTypeWord   = regexp.MustCompile(`\b(u?int\d*|string|bool|float\d+)\b`)
+)
+
+// c07Symptom abstracts generated names and concrete types out of a diagnostic, so that one defect
+// (a stale inner result type) has one symptom whatever types the history happened to use.
+func c07Symptom(stderr string) string {
+	line := ""
+	for _, ln := range strings.Split(stderr, "\n") {
+		ln = strings.TrimSpace(ln)
+		if ln == "" || strings.HasPrefix(ln, "could not yet generate") || strings.HasPrefix(ln, "warning: GOCOVERDIR") {
+			continue
+		}
+		line = ln
+		break
+	}
+	line = reDeriveName.ReplaceAllStringFunc(line, func(m string) string {
+		for _, p := range []string{"deriveFmap", "deriveSort", "deriveKeys", "deriveEqual", "deriveCompare", "deriveHash", "deriveClone", "deriveGoString", "deriveDeepCopy", "deriveContains", "deriveUnique", "deriveMin"} {
+			if strings.HasPrefix(m, p) {
+				return p + "*"
+			}
+		}
+		return m
+	})
+	line = reTypeWord.ReplaceAllString(line, "T")
+	// registration / generation errors are classified by their stage only: which plugin trips over a
+	// stale or partial signature depends on the calls the history happens to contain
+	for _, stage := range []string{"Add Error", "Generator Error", "cannot generate"} {
+		if strings.HasPrefix(line, stage) {
+			return strings.ReplaceAll(stage, " ", "_")
+		}
+	}
+	return symptom(line)
+}
+
+// remnantKey: a cut inside the header (or an empty file) fails the same way whatever edit came
+// before; a cut in the body can expose a stale signature, which depends on the edit.
+func remnantKey(which, class, edit string) string {
+	if edit == "retype-nested-result" && class != "in-header" && class != "empty-file" {
+		return "remnant-of-" + which + ":" + class + "@" + edit
+	}
+	return "remnant-of-" + which + ":" + class
 }
